@@ -170,9 +170,14 @@ enum Op { NOTEON1, NOTEON2, NOTEOFF1, NOTEOFF2, NOTEON1_V0, PED_ON, PED_OFF, SOS
 __attribute__((optnone, noinline)) static void noteon(unsigned ch, unsigned key, unsigned char v)
 {
     if(!g_checking) opn2_rt_noteOn(g_dev, ch, key, 100);     // prefix: one concrete velocity
+#ifdef VFIX
+    else opn2_rt_noteOn(g_dev, ch, key, VFIX);               // one velocity per solver run (the obligations enumerate 1 / 64 / 127)
+    (void)v;
+#else
     else if(v & 1) opn2_rt_noteOn(g_dev, ch, key, 127);
     else if(v & 2) opn2_rt_noteOn(g_dev, ch, key, 64);
     else opn2_rt_noteOn(g_dev, ch, key, 1);
+#endif
 }
 
 static unsigned char g_sel[2], g_v[2];
@@ -265,7 +270,11 @@ __attribute__((optnone, noinline)) static void slot(int depth)
     }
     unsigned sel = g_sel[depth & 1];
     g_step = depth;
+#if XLO == XHI
+    sel = XLO;                             // one operation per solver run (the obligations enumerate the alphabet)
+#else
     sel = XLO + sel % (XHI - XLO + 1);     // enumeration, not an assumption: an assume would not stop the other cases from being explored
+#endif
     switch(sel)
     {
     CASE(0) CASE(1) CASE(2) CASE(3) CASE(4) CASE(5) CASE(6) CASE(7) CASE(8) CASE(9) CASE(10) CASE(11) CASE(12) CASE(13)
